@@ -105,7 +105,8 @@ def run_iterator(ctx, it, fname):
         k = Lin({'k%d' % (len(calls) + 1): 1}, 'k%d' % (len(calls) + 1))
         calls.append((tt, X, k))
         if getDt:
-            return k, dt
+            # the model is free to propose a different step every time it is asked; only the first request is the step of this call
+            return k, (dt if len(calls) == 1 else real(ctx, 'dt_proposed_at_stage%d' % len(calls), lambda v: v > 0))
         return k
 
     def updateX(x, k, h):
